@@ -115,6 +115,12 @@ def check(run):
         for t in longv[versgen.ECO_OF.get(sc, sc)][:2]:
             runs.append({"tag": "wiring", "argv": [codes(x) for x in ["vers", "contains", "vers:%s/<%s" % (sc, t), ch[sc][3]]]})
             runs.append({"tag": "wiring", "argv": [codes(x) for x in ["vers", "contains", "vers:%s/>=%s" % (sc, ch[sc][1]), t]]})
+    # the star range is answered before the version is looked at: whatever the library says for a blank or invalid
+    # version there is what the CLI has to print
+    for sc in versgen.SCHEMES:
+        for star in ("*", " * "):
+            for p in ("", " ", "\t", "not a version", ch[sc][2]):
+                runs.append({"tag": "wiring", "argv": [codes(x) for x in ["vers", "contains", "vers:%s/%s" % (sc, star), p]]})
     ch2 = versgen.chains(run, chain=2)      # build metadata (+), tildes, epochs, upper case: nothing may be decoded or folded on the way
     for sc in versgen.SCHEMES:
         for _ in range(6 if quick else 40):
